@@ -134,6 +134,15 @@ pub struct World {
     /// permission bits of files / directories (world-relative path -> mode), applied last
     #[serde(default)]
     pub modes: BTreeMap<String, u32>,
+    /// create the files in reverse order: on tmpfs `readdir` lists the newest entry first, so
+    /// this flips the order in which a directory listing presents its entries (a seam for code
+    /// that decides by listing order)
+    #[serde(default)]
+    pub create_rev: bool,
+    /// model-only knob: `.stylua.toml` is looked for before `stylua.toml` (which of the two names
+    /// wins when a directory holds both is not documented; see `check::execute`)
+    #[serde(default)]
+    pub dot_first: bool,
 }
 
 #[derive(Serialize, Deserialize, Clone, Debug, Default, PartialEq)]
@@ -179,13 +188,26 @@ impl World {
         }
     }
 
+    /// Directories that hold both `stylua.toml` and `.stylua.toml`.
+    pub fn both_config_names(&self) -> Vec<String> {
+        self.files
+            .keys()
+            .filter_map(|k| k.strip_suffix(".stylua.toml").map(|d| d.to_string()))
+            .filter(|d| self.files.contains_key(&format!("{d}stylua.toml")))
+            .collect()
+    }
+
     pub fn materialise(&self, root: &Path) -> std::io::Result<()> {
         if root.exists() {
             std::fs::remove_dir_all(root)?;
         }
         std::fs::create_dir_all(root)?;
         std::fs::create_dir_all(root.join(&self.cwd))?;
-        for (p, bytes) in &self.files {
+        let mut order: Vec<(&String, &Vec<u8>)> = self.files.iter().collect();
+        if self.create_rev {
+            order.reverse();
+        }
+        for (p, bytes) in order {
             let full = root.join(p);
             if let Some(parent) = full.parent() {
                 std::fs::create_dir_all(parent)?;
